@@ -208,6 +208,7 @@ int World::exec_array(const Op &op) {
         else if (invalid == 3) { off.push_back(0); cntv.push_back(1); arg_class += ",wrong-rank"; }
         else if (invalid == 4) { mt = (m.dtype == DataType::String) ? DataType::Double : DataType::String; arg_class += ",wrong-eltype"; }
         else if (invalid == 5) { static const DataType un[] = {DataType::Char, DataType::Nothing, DataType::Opaque}; mt = un[r.below(3)]; arg_class += ",unsupported-eltype"; }
+        else if (invalid == 6 && m.dtype != DataType::String) { mt = m.dtype == DataType::Bool ? kTypes[1 + r.below(10)] : DataType::Bool; arg_class += ",bool-vs-numeric"; }   // whether accepted or refused is the library's choice
         else invalid = 0;
         size_t n = 1; for (auto c : cntv) n *= (size_t) c;
         if (cntv.empty()) n = 0;
@@ -274,6 +275,7 @@ int World::exec_array(const Op &op) {
         DataType mt = m.dtype;
         if (((unsigned) a[3]) % 24 == 4) { mt = (m.dtype == DataType::String) ? DataType::Double : DataType::String; arg_class += ",wrong-eltype"; invalid = 4; }
         else if (((unsigned) a[3]) % 24 == 5) { static const DataType un[] = {DataType::Char, DataType::Nothing, DataType::Opaque}; mt = un[r.below(3)]; arg_class += ",unsupported-eltype"; invalid = 5; }
+        else if (((unsigned) a[3]) % 24 == 6 && m.dtype != DataType::String) { mt = m.dtype == DataType::Bool ? kTypes[1 + r.below(10)] : DataType::Bool; arg_class += ",bool-vs-numeric"; invalid = 6; }
         size_t n = 1; for (auto c : cntv) n *= (size_t) c;
         WriteData w;
         std::string zeros;
